@@ -21,5 +21,47 @@ pub mod plonk;
 pub mod recursion;
 pub mod util;
 
+/// Read-only re-exports of crate-private items for the external verification harness.
+#[cfg(feature = "verif_hooks")]
+pub mod verif_hooks {
+    #[cfg(not(feature = "std"))]
+    use alloc::vec::Vec;
+
+    use crate::hash::hash_types::RichField;
+    use crate::hash::merkle_proofs::MerkleProof;
+    use crate::plonk::config::Hasher;
+
+    /// `util::reverse_bits`
+    pub fn reverse_bits(n: usize, num_bits: usize) -> usize {
+        crate::util::reverse_bits(n, num_bits)
+    }
+
+    /// `hash::path_compression::compress_merkle_proofs`
+    pub fn compress_merkle_proofs<F: RichField, H: Hasher<F>>(
+        cap_height: usize,
+        indices: &[usize],
+        proofs: &[MerkleProof<F, H>],
+    ) -> Vec<MerkleProof<F, H>> {
+        crate::hash::path_compression::compress_merkle_proofs(cap_height, indices, proofs)
+    }
+
+    /// `hash::path_compression::decompress_merkle_proofs`
+    pub fn decompress_merkle_proofs<F: RichField, H: Hasher<F>>(
+        leaves_data: &[Vec<F>],
+        leaves_indices: &[usize],
+        compressed_proofs: &[MerkleProof<F, H>],
+        height: usize,
+        cap_height: usize,
+    ) -> Vec<MerkleProof<F, H>> {
+        crate::hash::path_compression::decompress_merkle_proofs(
+            leaves_data,
+            leaves_indices,
+            compressed_proofs,
+            height,
+            cap_height,
+        )
+    }
+}
+
 #[cfg(test)]
 mod lookup_test;
